@@ -169,6 +169,56 @@ def traceOp (t : TTab) (s : St) (dirs : List Nat) : Op → List Ev
     | some _, some ws => trFwd none .bCancel ws
     | _, _ => []
 
+/-! ## the traces of `kvstore.Copy` / `kvstore.CopyBatched` -/
+
+/-- The consumer of `Copy` on the target side: `target.Set` per entry until one fails. -/
+def copySetsTr (fe ok : Bool) (ws : List TWrap) : List Entry → List Ev × Bool
+  | [] => ([], true)
+  | e :: rest =>
+    let r := trMut fe (some (.set, [e.1, e.2])) (.set e.1 e.2) ok ws
+    if r.2 then let q := copySetsTr fe ok ws rest; (r.1 ++ q.1, q.2) else (r.1, false)
+
+/-- The consumer of `CopyBatched` on the target side, as the loop is written: batch `Set`, count, and at the batch
+size `Commit` followed — also when the Commit failed — by a fresh `target.Batched()`; a failed Commit ends the iteration. -/
+def copybLoopTr (fe : Bool) (ws : List TWrap) (n : Nat) : Nat → List Entry → List Ev × Bool
+  | _, [] => ([], true)
+  | cnt, e :: rest =>
+    let ev1 := trFwd (some (.set, [e.1, e.2])) (.bSet e.1 e.2) ws
+    if n != 0 && cnt + 1 >= n then
+      let c := trMut fe none .bCommit true ws
+      let ev2 := c.1 ++ trFwd none .batched ws
+      if c.2 then let q := copybLoopTr fe ws n 0 rest; (ev1 ++ ev2 ++ q.1, q.2) else (ev1 ++ ev2, false)
+    else
+      let q := copybLoopTr fe ws n (cnt + 1) rest; (ev1 ++ q.1, q.2)
+
+/-- Trace of `Copy` (`n = none`) / `CopyBatched` (`n = some size`, `0` = no size argument): the target's events before
+the source is iterated, the source's events, the target's events afterwards.  `none`: unknown handle. -/
+def copyTrace (tS tD : TTab) (src dst : St) (v w : Nat) (n : Option Nat) : Option (List Ev × List Ev × List Ev) :=
+  match src.views.lookup v, dst.views.lookup w, tS.views.lookup v, tD.views.lookup w with
+  | some vs, some _, some wsS, some wsD =>
+    let srcEv := trFwd (some (.iterate, [[]])) (.iterate [] []) wsS
+    let its := vRead (dbIterate vs.realm [] .fwd 0) vs.wraps src.db
+    match n with
+    | none =>
+      match its with
+      | .kvs es =>
+        let r := copySetsTr tD.fault (!dst.db.closed) wsD es
+        some ([], srcEv, r.1 ++ (if r.2 then trFwd none .flush wsD else []))
+      | _ => some ([], srcEv, [])
+    | some n =>
+      let pre := trFwd none .batched wsD
+      if dst.db.closed then some (pre, [], [])
+      else
+        match its with
+        | .kvs es =>
+          let r := copybLoopTr tD.fault wsD n 0 es
+          if r.2 then
+            let c := trMut tD.fault none .bCommit true wsD
+            some (pre, srcEv, r.1 ++ c.1 ++ (if c.2 then trFwd none .flush wsD else []))
+          else some (pre, srcEv, r.1 ++ trFwd none .bCancel wsD)
+        | _ => some (pre, srcEv, trFwd none .bCancel wsD)
+  | _, _, _, _ => none
+
 /-- The handle tables after a request that was answered `ans`; `cfg` is the configuration of the wrapper
 a `wrap` request creates. -/
 def TTab.step (t : TTab) (cfg : TWrap) (ans : Out) : Op → TTab
@@ -296,6 +346,15 @@ def treeLine (st : TState) (second : Bool) (toks : List String) : TState × Stri
 def dbgConstLine : String :=
   " ".intercalate (Cmd.all.map (fun c => c.name ++ "=" ++ toString c.bit)) ++ " AllCommands=" ++ toString allCommands
 
+/-- What the recording stores saw of a copy: ` ;s` + the source tree's events, ` ;d` + the target tree's (each only if that
+tree is traced); one list ` ;s` in call order when source and target are views of the same tree. -/
+def copySuffix (st : TState) (sT : Bool) (v : Nat) (dT : Bool) (w : Nat) (n : Option Nat) : String :=
+  let tS := if sT then st.t2 else st.t1
+  let tD := if dT then st.t2 else st.t1
+  let tr := (copyTrace tS tD (st.p.get sT) (st.p.get dT) v w n).getD ([], [], [])
+  if sT == dT then (if tS.spy then " ;s" ++ showTrace (tr.1 ++ tr.2.1 ++ tr.2.2) else "")
+  else (if tS.spy then " ;s" ++ showTrace tr.2.1 else "") ++ (if tD.spy then " ;d" ++ showTrace (tr.1 ++ tr.2.2) else "")
+
 /-- Requests: `<request>` (tree 1), `2 <request>` (tree 2), `copy …` / `copyb …` / `fn …` (see `pstepLine`). -/
 def tstepLine (st : TState) (toks : List String) : TState × String :=
   match toks with
@@ -304,12 +363,14 @@ def tstepLine (st : TState) (toks : List String) : TState × String :=
   | ["copy", sT, v, dT, w] =>
     match parseTree sT, v.toNat?, parseTree dT, w.toNat? with
     | some sT, some v, some dT, some w =>
-      let r := pstepF st.t1.fault st.t2.fault st.p (.copy sT v dT w); ({ st with p := r.1 }, showOut r.2)
+      let r := pstepF st.t1.fault st.t2.fault st.p (.copy sT v dT w)
+      ({ st with p := r.1 }, showOut r.2 ++ copySuffix st sT v dT w none)
     | _, _, _, _ => (st, "bad-op")
   | ["copyb", sT, v, dT, w, n] =>
     match parseTree sT, v.toNat?, parseTree dT, w.toNat?, n.toNat? with
     | some sT, some v, some dT, some w, some n =>
-      let r := pstepF st.t1.fault st.t2.fault st.p (.copyb sT v dT w n); ({ st with p := r.1 }, showOut r.2)
+      let r := pstepF st.t1.fault st.t2.fault st.p (.copyb sT v dT w n)
+      ({ st with p := r.1 }, showOut r.2 ++ copySuffix st sT v dT w (some n))
     | _, _, _, _, _ => (st, "bad-op")
   | "2" :: rest => treeLine st true rest
   | _ => treeLine st false toks
